@@ -368,5 +368,40 @@ def run(chk):
         return True, "", [b.span]
     chk.ob("C18.R6:is_parent_of", "a span parent is kept only for the same trace id", is_parent_of)
 
+
+    def is_sampled():
+        b = P.body(TP + "TraceFlags::is_sampled")
+        r = b.origin(0)
+        # (self.0 & SAMPLED) == SAMPLED   or   (self.0 & SAMPLED) != 0
+        def is_mask(o):
+            if o[0] != "binop" or o[1] != "BitAnd":
+                return False
+            def cv(x):
+                while x[0] == "field":  # TraceFlags::SAMPLED.0 is a field of an evaluated constant
+                    x = x[1]
+                return mir.o_const_value(x)
+            vals = [cv(x) for x in (o[2], o[3])]
+            has_self = any(("param", 1) in common.roots(x) for x in (o[2], o[3]))
+            return has_self and 1 in vals
+        if r[0] != "binop" or r[1] not in ("Eq", "Ne"):
+            return False, "is_sampled() is %s, not a test of the sampled bit" % o_str(r), [], b.span
+        sides = (r[2], r[3])
+        masks = [x for x in sides if is_mask(x)]
+        if not masks:
+            return False, ("is_sampled() compares the whole flags byte (%s): an incoming header with the sampled bit and any other "
+                           "bit set (e.g. -03) would be treated as unsampled although its flag must be inherited" % o_str(r)), [], b.span
+        other = [mir.o_const_value(x) for x in sides if not is_mask(x)]
+        if not ((r[1] == "Eq" and other == [1]) or (r[1] == "Ne" and other == [0])):
+            return False, "is_sampled() tests the mask with %s %s" % (r[1], other), [], b.span
+        return True, "", [b.span]
+    chk.ob("C18.R3:is_sampled", "the sampled decision looks only at the sampled bit of the flags (mask with SAMPLED)", is_sampled)
+
+    # a span or pushed header going out of scope restores the previous traceparent on every exit, also when unwinding:
+    # frames are entered/exited only through the RAII guard (shared with C03/C04)
+    from . import c03, c05
+    c03.bracket_rules(chk, P, "C18")
+    # inside an unsampled trace no span is emitted: a guard the filter rejected never runs a completion (shared with C05)
+    c05.completion_rules(chk, P, "C18")
+
     common.arg_agreement_rule(chk, P, "C18", [("emit_traceparent", None)], 4)
     return chk
